@@ -28,13 +28,24 @@ func TestGovcReplay(t *testing.T) {
 	t.Setenv("OLLAMA_MODELS", t.TempDir())
 	var s Server
 
+	// Store: h/ns/Foo:t created through POST /api/create; h/ns2/foo:t written as a manifest file
+	// under exactly that name. The default handlers would re-spell the second one (they all pass
+	// through getExistingName, which keeps one spelling per part position across the store);
+	// a store gets such a pair from the experimental client (OLLAMA_EXPERIMENT=client2:
+	// registry.Local pull -> blob.DiskCache.Link matches whole names only and otherwise writes
+	// the name as given), from a release that still had case-sensitive names, or from copying
+	// a models directory.
 	_, digest := createBinFile(t, nil, nil)
 	stream := false
-	for _, name := range []string{"h/ns/Foo:t", "h/ns2/foo:t"} {
-		w := createRequest(t, s.CreateHandler, api.CreateRequest{Name: name, Files: map[string]string{"m.gguf": digest}, Stream: &stream})
-		if w.Code != http.StatusOK {
-			t.Fatalf("create %s: status %d: %s", name, w.Code, w.Body.String())
-		}
+	if w := createRequest(t, s.CreateHandler, api.CreateRequest{Name: "h/ns/Foo:t", Files: map[string]string{"m.gguf": digest}, Stream: &stream}); w.Code != http.StatusOK {
+		t.Fatalf("create h/ns/Foo:t: status %d: %s", w.Code, w.Body.String())
+	}
+	first, err := ParseNamedManifest(model.ParseName("h/ns/Foo:t"))
+	if err != nil {
+		t.Fatal(err)
+	}
+	if err := WriteManifest(model.ParseName("h/ns2/foo:t"), first.Config, first.Layers); err != nil {
+		t.Fatal(err)
 	}
 
 	req := model.ParseName("h/ns/foo:t")
